@@ -19,6 +19,8 @@ import SonicSpec.Proofs.IOEnc
 import SonicSpec.Proofs.IOShipped
 import SonicSpec.Proofs.IOShipped2
 import SonicSpec.Proofs.IOPatched
+import SonicSpec.Proofs.IOGrammar
+import SonicSpec.Proofs.IOHead
 namespace SonicSpec.Props.C17
 open SonicSpec SonicSpec.IO
 
@@ -261,6 +263,157 @@ example : Fixed.outputs decJson [([91, 49, 93, 32], none), ([], some (.fail 7))]
     = ([[91, 49, 93]], .term (.readerErr 7)) := by decide +kernel
 example : Fixed.outputs decJson [([49], none), ([], none), ([50, 32], some .eof)] .eof
     = ([[49, 50]], .term .eof) := by decide +kernel
+
+/-! ### the specification at the level of the JSON grammar (Model/JsonGrammar.lean, `Val StrictBody`:
+    the grammar the shared strict parser is sound and complete for, Props/C02Fsm.lean).
+    `GStream term data ts`: `data` reads as white space, a grammar value that is properly ended
+    (`NumEnd`: what follows does not continue a number), white space, ..., and ends after white
+    space; `ts` are the texts of the values.  `denote t` = canonical text of the strict parse of `t`. -/
+section grammar
+open SonicSpec.Json
+
+/-- COMPLETENESS.  If the data reads as the grammar values `ts`, the specification yields exactly
+    their denotations and then the reader's terminal condition (EOF, or the reader's error). -/
+theorem decodeAll_of_grammar (term : RErr) (data : Bytes) (ts : List Bytes) (h : GStream term data ts) :
+    decodeAllStop decJson data term = (ts.map denote, .term term.toTerminal) :=
+  decodeAllFuel_of_gstream term h _ (by have := dropWs_le_length data; omega)
+
+/-- the decomposition into properly ended grammar values is unique as far as values go -/
+theorem grammar_reading_unique (term : RErr) (data : Bytes) (ts₁ ts₂ : List Bytes)
+    (h₁ : GStream term data ts₁) (h₂ : GStream term data ts₂) : ts₁.map denote = ts₂.map denote := by
+  have e₁ := decodeAll_of_grammar term data ts₁ h₁
+  have e₂ := decodeAll_of_grammar term data ts₂ h₂
+  rw [e₁] at e₂
+  exact (Prod.mk.inj e₂).1
+
+/-- SOUNDNESS.  Every value the specification yields is read from the text of a grammar value that
+    sits right behind the white space, and decoding continues right behind that text. -/
+theorem decodeAll_values_are_grammar_values (lenient : Bool) (term : RErr) (data x rest : Bytes)
+    (h : specStep decJson lenient term data = .val x rest) :
+    ∃ k v, dropWs data = v ++ rest ∧ Val StrictBody k v :=
+  specStep_val_sound lenient term data x rest h
+
+/-- ERROR POSITION.  Where the specification of an EOF-terminated stream stops with an error, no
+    properly ended grammar value starts behind the white space. -/
+theorem decodeAll_error_where_no_value_starts (data : Bytes) (t : Terminal)
+    (h : specStep decJson false .eof data = .done t) (hne : dropWs data ≠ []) :
+    ¬ ∃ k v r, dropWs data = v ++ r ∧ Val StrictBody k v ∧ NumEnd r :=
+  specStep_error_no_value data t h hne
+
+/-- FULL (repaired decoder), grammar level: whatever the chunking, a stream that reads as the
+    grammar values `ts` is decoded to exactly their denotations, then the reader's terminal condition. -/
+theorem chunking_irrelevant_grammar (r : Script) (f : RErr) (ts : List Bytes)
+    (h : GStream (termOf r f) (concat r) ts) :
+    Fixed.outputs decJson r f = (ts.map denote, .term (termOf r f).toTerminal) := by
+  rw [Fixed.outputs_eq]; exact decodeAll_of_grammar _ _ ts h
+
+/-- PARTIAL (shipped decoder), grammar level, under `Faithful.RunSafe` (see
+    `shipped_chunking_irrelevant_no_scalar_cut_partial`) -/
+theorem shipped_chunking_irrelevant_grammar_partial (r : Script) (f : RErr) (ts : List Bytes)
+    (h : GStream (termOf r f) (concat r) ts)
+    (hs : Faithful.RunSafe decJson ((concat r).length + 1) {} r f) :
+    Faithful.outputs decJson r f = (ts.map denote, .term (termOf r f).toTerminal) := by
+  rw [Faithful.outputs_eq_safe decJson r f hs]; exact decodeAll_of_grammar _ _ ts h
+
+/-- the grammar reading is not vacuous: `[1] "a"` followed by a line feed -/
+example : GStream .eof [91, 49, 93, 32, 34, 97, 34, 10] [[91, 49, 93], [34, 97, 34]] :=
+  .cons _ [91, 49, 93] [32, 34, 97, 34, 10] 1 _ (by decide +kernel)
+    (.arr 1 _ (.elems [] [49] [93] 0 1 (by intro c hc; cases hc) (.num _ (.pos _ (.mk [49] [] [] (.nz 49 [] (by decide) (by decide) (by intro c hc; cases hc)) .none .none)))
+      (.close [] (by intro c hc; cases hc))))
+    (by intro c r e; cases e; decide)
+    (by intro hn; cases hn with
+        | pos n hb => obtain ⟨c, t, e, hd⟩ := numBody_head hb; simp at e; rw [← e.1] at hd; revert hd; decide)
+    (.cons _ [34, 97, 34] [10] 0 _ (by decide +kernel) (.str [97] (.plain 97 [] (by decide) (by decide) (by decide) .nil))
+      (by intro c r e; cases e; decide)
+      (by intro hn; cases hn with
+          | pos n hb => obtain ⟨c, t, e, hd⟩ := numBody_head hb; simp at e; rw [← e.1] at hd; revert hd; decide)
+      (.done _ (by decide +kernel)))
+
+/-! ### the decoder as it is in /repo HEAD: `Patched.decode Repairs.head`.
+    What is still missing for the full statement, with kernel-checked witnesses
+    (replayed on the real code by corpus/C17/wave2.case): -/
+
+/-- remaining hypothesis 1 (known finding C17-error-precedence-blank-literal): an incomplete literal,
+    then a Read that brings only white space, then a READER ERROR: readMore() does not re-frame, the
+    reader's error is returned where the bytes `tr  ` already hold a syntax error -/
+theorem patched_head_blank_literal_witness :
+    Patched.outputs decJson Repairs.head [([116, 114], none), ([32, 32], none)] (.fail 7)
+      = ([], .term (.readerErr 7)) ∧
+    decodeAllStop decJson [116, 114, 32, 32] (.fail 7) = ([], .term .syntaxError) := by decide +kernel
+
+/-- remaining hypothesis 2 (undecided by the property): a number that touches the end of a stream
+    which ends with a READER ERROR is delivered by HEAD (it reads on, gets the error, accepts the
+    frame) and withheld by the specification; the lenient specification agrees with HEAD -/
+theorem patched_head_number_at_reader_error_witness :
+    Patched.outputs decJson Repairs.head [([49, 50], some (.fail 7))] .eof
+      = ([[49, 50]], .term (.readerErr 7)) ∧
+    decodeAllStop decJson [49, 50] (.fail 7) = ([], .term (.readerErr 7)) ∧
+    decodeAllFuel decJson true (.fail 7) 3 [49, 50] = ([[49, 50]], .term (.readerErr 7)) := by decide +kernel
+
+/-- with an EOF-terminated reader HEAD agrees with the specification on these and on the
+    witnesses of the shipped decoder's defects (each line names the repair that is needed) -/
+theorem patched_head_repairs_witnesses :
+    -- (c) scalar-split: `12` | `3 4`
+    Patched.outputs decJson Repairs.head [([49, 50], none), ([51, 32, 52], none)] .eof
+      = ([[49, 50, 51], [52]], .term .eof) ∧
+    -- (e) number-frame-swallow: one Read `1 2 3 4 5 6 7 8 9 10 11 12`
+    Patched.outputs decJson Repairs.head
+      [([49,32,50,32,51,32,52,32,53,32,54,32,55,32,56,32,57,32,49,48,32,49,49,32,49,50], none)] .eof
+      = ([[49],[50],[51],[52],[53],[54],[55],[56],[57],[49,48],[49,49],[49,50]], .term .eof) ∧
+    -- (b) truncated-clean-eof: `[1,2`
+    Patched.outputs decJson Repairs.head [([91, 49, 44, 50], none)] .eof = ([], .term .syntaxError) ∧
+    -- (a) stray-closer: `1 ]`
+    Patched.outputs decJson Repairs.head [([49, 32, 93], none)] .eof = ([[49]], .term .syntaxError) ∧
+    -- (d) error-precedence: `x` together with a reader error
+    Patched.outputs decJson Repairs.head [([120], some (.fail 7))] .eof = ([], .term .syntaxError) ∧
+    -- blank-only Read inside a literal, EOF-terminated: agrees
+    Patched.outputs decJson Repairs.head [([116, 114], none), ([32, 32], none)] .eof
+      = ([], .term .syntaxError) := by decide +kernel
+
+/-- FULL STRENGTH for /repo HEAD on streams without top-level scalars: if, while the specification
+    reads the data, every value starts with `[`, `{` or `"` (complete or not, well-formed inside or
+    not) or the byte at hand starts no value at all (junk, stray `]` `}`, NUL), then HEAD returns
+    exactly the specification's values and terminal condition - for EVERY chunking (single bytes,
+    empty reads, data with EOF/error) and EVERY placement of a reader error, truncated and junk
+    tails included.  `DecWithin`: the inner decoder consumes at least one byte and stays inside the
+    frame (`decJson_within` for the strict parser).  What is missing for all streams is exactly the
+    two scalar cases `patched_head_blank_literal_witness` (a real divergence, recorded) and
+    `patched_head_number_at_reader_error_witness` (undecided by the property); for numbers the
+    statement further needs the inner decoder to read a number only up to the end of its run of
+    number characters (HEAD hands it the longer native frame). -/
+theorem patched_head_chunking_irrelevant_no_scalars {V : Type} (dec : Bytes → Option (V × Nat))
+    (hdec : DecWithin dec) (r₁ r₂ : Script) (f₁ f₂ : RErr)
+    (hbytes : concat r₁ = concat r₂) (hterm : termOf r₁ f₁ = termOf r₂ f₂)
+    (h : NoTopScalars dec (termOf r₁ f₁) ((concat r₁).length + 1) (concat r₁)) :
+    Patched.outputs dec Repairs.head r₁ f₁ = Patched.outputs dec Repairs.head r₂ f₂ ∧
+    Patched.outputs dec Repairs.head r₁ f₁ = decodeAllStop dec (concat r₁) (termOf r₁ f₁) := by
+  have e₁ := Patched.outputs_head_noscalar dec hdec r₁ f₁ h
+  have e₂ := Patched.outputs_head_noscalar dec hdec r₂ f₂ (by rw [← hbytes, ← hterm]; exact h)
+  exact ⟨by rw [e₁, e₂, hbytes, hterm], e₁⟩
+
+/-- ... and at the level of the grammar: a stream of strings/arrays/objects that reads as `ts` -/
+theorem patched_head_chunking_irrelevant_grammar_no_scalars (r : Script) (f : RErr) (ts : List Bytes)
+    (hg : GStream (termOf r f) (concat r) ts)
+    (h : NoTopScalars decJson (termOf r f) ((concat r).length + 1) (concat r)) :
+    Patched.outputs decJson Repairs.head r f = (ts.map denote, .term (termOf r f).toTerminal) := by
+  rw [Patched.outputs_head_noscalar decJson decJson_within r f h]
+  exact decodeAll_of_grammar _ _ ts hg
+
+/-- the hypothesis is satisfiable with a truncated tail: `[1] {"a"` -/
+example : NoTopScalars decJson (.fail 7) 9 [91, 49, 93, 32, 123, 34, 97, 34] := by
+  refine ⟨Or.inr ⟨91, [49, 93, 32, 123, 34, 97, 34], by decide +kernel, Or.inl (by decide)⟩, fun v rest hs => ?_⟩
+  have : rest = [32, 123, 34, 97, 34] := by
+    have e : specStep decJson false (.fail 7) [91, 49, 93, 32, 123, 34, 97, 34]
+        = .val [91, 49, 93] [32, 123, 34, 97, 34] := by rfl
+    rw [e] at hs; cases hs; rfl
+  subst this
+  refine ⟨Or.inr ⟨123, [34, 97, 34], by decide +kernel, Or.inl (by decide)⟩, fun v rest hs => ?_⟩
+  have e : specStep decJson false (.fail 7) [32, 123, 34, 97, 34] = .done (.readerErr 7) := by rfl
+  rw [e] at hs; cases hs
+example : Patched.outputs decJson Repairs.head [([91, 49], none), ([93, 32, 123], none), ([34, 97, 34], some (.fail 7))] .eof
+    = ([[91, 49, 93]], .term (.readerErr 7)) := by decide +kernel
+
+end grammar
 
 /-! ### stream encoder -/
 section encoder
